@@ -78,7 +78,7 @@ def classify_case(m, c):
     return None
 
 
-def check_one(m, c, fails, shrink=True):
+def check_one(m, c, fails, shrink=True, shortcut=False):
     mk = _variants(m, c["plugins"], c["hard_wrap"], c["escape"])
     a, b = mk("without"), mk("with")
     d = c["input"]
@@ -103,7 +103,7 @@ def check_one(m, c, fails, shrink=True):
         f = dict(c, kind="speedup-changes-output", expected=wa[:1200], got=wb[:1200])
         f["class"] = classify_case(m, c)
         fails.append(f)
-    elif not c["hard_wrap"] and all(isinstance(x, str) and ":" not in x for x in c["plugins"]) and len(d) % 4 == 0:
+    elif not c["hard_wrap"] and all(isinstance(x, str) and ":" not in x for x in c["plugins"]) and (shortcut or len(d) % 4 == 0):
         # the same through the shortcut mistune.markdown() and its cache of converters (plugins in the caller's order)
         try:
             sa = m.markdown(d, escape=c["escape"], plugins=list(c["plugins"]))
